@@ -135,4 +135,17 @@ let register () =
           let (b, ok) = TarSink.tar_into TarSink.EncFixed t (n_of_string k) in
           (if ok then "true" else "false") ^ ":" ^ string_of_int (Stdlib.List.length b))
           (Stdlib.String.split_on_char ',' ks))
+    | _ -> "ERR args");
+  (* c13.sees <spec file> <root path hex> -> <nodes tar() encodes, FIFOs/sockets not counted>:<events left unread>
+     for the walk started at the given spelling of the root path (File.Path cleaned) *)
+  Drv.register "c13.sees" (fun args -> match args with
+    | [path; w] ->
+        let t = tree_of_spec path in
+        let rec count (t : Tar.node) = match t with
+          | Tar.NDir (_, _, cs) -> 1 + Stdlib.List.fold_left (fun a (_, c) -> a + count c) 0 cs
+          | Tar.NOther _ -> 0
+          | _ -> 1 in
+        (match TarWalk.tar_sees TarWalk.PathClean (bytes_of_hex w) t with
+         | Some (t', left) -> string_of_int (count t') ^ ":" ^ string_of_int (Stdlib.List.length left)
+         | None -> "NONE")
     | _ -> "ERR args")
